@@ -123,13 +123,15 @@ def _parse_attribute_block(
         elif line.startswith("M  RAD"):
             # M  RADnn8 aaa vvv ...
             _merge_tuples_into_additional_attributes(
-                _parse_atom_value_assignments(line, atom_attrs), RAD, additional_attrs
+                _parse_non_negative_atom_value_assignments(line, atom_attrs),
+                RAD,
+                additional_attrs,
             )
             reset_chg_and_rad = True
         elif line.startswith("M  ISO"):
             # M  ISOnn8 aaa vvv ...
             _merge_tuples_into_additional_attributes(
-                _parse_atom_value_assignments(line, atom_attrs),
+                _parse_non_negative_atom_value_assignments(line, atom_attrs),
                 MASS,
                 additional_attrs,
             )
@@ -176,6 +178,18 @@ def _parse_atom_value_assignments(
 
         _validate_atom_index(atom_index, atom_attrs, line)
         assignments.append((atom_index, value))
+
+    return assignments
+
+
+def _parse_non_negative_atom_value_assignments(
+    line: str, atom_attrs: dict[int, dict[str, Any]]
+) -> list[tuple[int, int]]:
+    # Radical codes and absolute isotope masses are never negative.
+    assignments = _parse_atom_value_assignments(line, atom_attrs)
+    for _, value in assignments:
+        if value < 0:
+            raise MolfileParserException(f'Negative value {value} in line "{line}"')
 
     return assignments
 
